@@ -256,7 +256,9 @@ def jobs(tier, seed):       # noqa: F811
                 continue
             if f == "underindented-docstring-line" and t != "outline":
                 continue
-            for fillers in ((0,) if tier == "quick" else (0, 1)):
+            # (quick tier: blank / comment lines inside tables for the table fault, so that the reported line is not the
+            #  row count)
+            for fillers in (((0, 1) if f == "ragged-table-row" and t == "outline" else (0,)) if tier == "quick" else (0, 1)):
                 js.append(Job("inject.%s.%s.f%d" % (t, f, fillers), "props.c05:h_inject", {"tree": t, "fault": f, "fillers": fillers},
                               reach=["C05.error-at-injected-line"] if not (f == "and-without-predecessor" and t == "bg-rule") else [],
                               min_paths=3, cost=300, validate=30, closure=False))
